@@ -274,6 +274,8 @@ def mkOpt (s : S) : OptSt :=
   | "bfgs", _ =>
     .bfgs { core := mkCore s.pol s.mx (tol 0.000001) 0, fn := s.fn0, ext := Bfgs.fresh }
   | "meta", ty :: r =>
+    -- other configurations than the default one (`sb`) are explored through the predicates only
+    if r.length ≥ 2 && r.getD 1 "sb" != "sb" then .unmodelled else
     -- first half of the function's parameters: coordinate-wise Brent; second half: BFGS (harness/C10.cpp)
     let h := (s.n + 1) / 2
     let ext : Meta Float :=
@@ -401,6 +403,18 @@ def marginOk (cons : Spec.Cons Float) (pt : List Float) : Bool :=
         | _ => true)
     | _, _ => true)
 
+/-- at least 1e-3 inside every finite bound -/
+def marginWide (cons : Spec.Cons Float) (pt : List Float) : Bool :=
+  cons.all (fun nc => match nc.2, pt[nc.1]? with
+    | some c, some x =>
+      (match c.lo with
+        | .fin l => x > l + 1e-3
+        | _ => true) &&
+      (match c.hi with
+        | .fin h => x < h - 1e-3
+        | _ => true)
+    | _, _ => true)
+
 def writeInto (pt : List Float) (names : List Nat) (vals : List Float) : List Float :=
   (names.zip vals).foldl (fun p nv => p.set nv.1 nv.2) pt
 
@@ -477,14 +491,17 @@ def verdictRun (s : S) (o : String) (t : List String) : S × String :=
         | some lo, some hi, some x => (if lo < hi then lo else hi) ≤ x && x ≤ (if lo < hi then hi else lo)
         | _, _, _ => false
       | _, _, _ => false)
-    if s.fam == 0 && h.convex && h.full && tolR && s.tolGiven.isSome && s.mx ≥ 2000 && (s.pol == .ignore || s1.inactive)
+    let touched := !(s.pol == .ignore || s1.inactive)
+    if s.fam == 0 && h.convex && h.full && tolR && s.tolGiven.isSome && s.mx ≥ 2000 && (!touched || marginWide s.cons h.xs)
         && s.kind != "nback" && inInterval && h.xs.length == s.n then
       let fstar := s.obj h.xs
       let f0 := s.startVal.getD cur
       let scale := [1.0, Float.abs fstar, Float.abs (f0 - fstar)].foldl (fun m x => if x > m then x else m) 0
       let kap := if h.kappa > 1 then h.kappa else 1
       let bound := 100 * s.n.toFloat * kap * s.tolGiven.getD 0 * scale
-      if cur - fstar ≤ bound then (s1, "ok") else (s1, "FAIL:convergence")
+      -- a run that came within 1e-6 of a bound (a start on a bound, a trial the automatic policy corrected)
+      -- although the minimiser lies well inside every bound is judged under a clause of its own
+      if cur - fstar ≤ bound then (s1, "ok") else (s1, if touched then "FAIL:convergence_touching_bound" else "FAIL:convergence")
     else (s1, "ok")
   | none => (s1, "ok")
 
